@@ -130,9 +130,12 @@ def run(ctx, model_ok):
         cur_rates = dict(rates)
         ops = []
         touched = []
-        for _ in range(rng.randint(2, 8)):
-            if rng.random() < 0.45 or not touched:
-                code = rng.choice(touched) if touched and rng.random() < 0.35 else (rng.choice(unrated) if rng.random() < 0.1 else ("USD" if rng.random() < 0.15 else rng.choice(codes)))
+        pairs_seen = []   # ordered pairs already evaluated in this history: evaluated again after further updates (a result
+        #                   remembered per pair must not survive an update of one of its currencies, however the update spells it)
+        warm = rng.random() < 0.5
+        for step in range(rng.randint(2, 8)):
+            if (rng.random() < 0.45 or not touched) and not (warm and step == 0):
+                code = rng.choice(touched) if touched and rng.random() < 0.35 else rng.choice(rng.choice(pairs_seen)) if pairs_seen and rng.random() < 0.6 else (rng.choice(unrated) if rng.random() < 0.1 else ("USD" if rng.random() < 0.15 else rng.choice(codes)))
                 names = [code.lower(), code.upper()] + [n for n, t in alias.items() if t == code.lower()]
                 name = rng.choice(names) if rng.random() < 0.85 else rng.choice(["zzz", "", "us", "dollars"])
                 v = rng.choice(["2", "0.5", "123.456", "1", "0.0001", "1000000", "3", "7.25"])
@@ -143,9 +146,13 @@ def run(ctx, model_ok):
                     if target not in touched:
                         touched.append(target)
             else:
-                X = rng.choice(touched)
+                aliased = sorted({t.upper() for t in alias.values() if t.upper() in cur_rates})
+                X = rng.choice(touched) if touched else (rng.choice(aliased) if aliased and rng.random() < 0.6 else rng.choice(codes))
                 Y = rng.choice([c for c in codes if c in cur_rates] + touched)
                 A, B = (X, Y) if rng.random() < 0.5 else (Y, X)
+                if pairs_seen and rng.random() < 0.45:
+                    A, B = rng.choice(pairs_seen)
+                pairs_seen.append((A, B))
                 amt, amt2 = rng.choice(["1", "100", "12.5"]), rng.choice(["3", "40", "0.75"])
                 k = rng.random()
                 if k < 0.5:
